@@ -384,10 +384,96 @@ def rule_node_groups(chk, prog):
         (r.bad if bad else r.ok)(name, fn.where(), bad or "%d groups" % len(groups))
 
 
+def rule_crossings(chk, prog):
+    """OrthoPlanariser::computeCrossings: crossings are found where segments cross, and nowhere else."""
+    from fractions import Fraction
+    from ..microai.interp import Interp, Obj, Vec, Oracle, Unsupported, AssertFail, default_obj
+    r = chk.rule("CROSSINGS-EXACT", "OrthoPlanariser::computeCrossings interpreted on small orthogonal segment sets: a plain crossing, a T-junction, a "
+                 "route with a ONE-UNIT JOG (a vertical segment shorter than the sweep's tolerance) above a distant horizontal edge, a short "
+                 "horizontal segment beside a distant vertical edge, a ZERO-LENGTH segment (repeated route point) beside a distant vertical edge, "
+                 "two crossings on one line: the crossing nodes created are exactly the geometric crossings (a segment whose close event is "
+                 "sorted before its open event must not stay open and `cross` everything further along the sweep), and every segment still "
+                 "runs from its opening to its closing node; each scene with std::sort keeping and reversing equivalent elements", floor=12)
+    fn = prog.fn("dialect::OrthoPlanariser::computeCrossings")
+    F = Fraction
+
+    def node(i, x, y):
+        return default_obj(prog, "dialect::Node", {"_id": i, "m_ID": i, "m_cx": F(x), "m_cy": F(y)})
+
+    def seg(a, b):
+        ax, ay, bx, by = a.f["m_cx"], a.f["m_cy"], b.f["m_cx"], b.f["m_cy"]
+        if abs(by - ay) <= abs(bx - ax):
+            lo, hi = (a, b) if bx > ax else (b, a)
+            return default_obj(prog, "dialect::EdgeSegment", {"orientation": 0, "constCoord": ay, "lowerBound": lo.f["m_cx"], "upperBound": hi.f["m_cx"],
+                                                              "openingNode": lo, "closingNode": hi})
+        lo, hi = (a, b) if by > ay else (b, a)
+        return default_obj(prog, "dialect::EdgeSegment", {"orientation": 1, "constCoord": ax, "lowerBound": lo.f["m_cy"], "upperBound": hi.f["m_cy"],
+                                                          "openingNode": lo, "closingNode": hi})
+    scenes = [
+        ("plain crossing", [((0, 50), (100, 50)), ((50, 0), (50, 100))], [(50, 50)]),
+        ("T-junction (vertical ends on the horizontal)", [((0, 50), (100, 50)), ((50, 0), (50, 50))], []),
+        ("route with a one-unit vertical jog, 100 above an edge it never meets",
+         [((0, 0), (100, 0)), ((100, 0), (100, 1)), ((100, 1), (200, 1)), ((0, 100), (200, 100))], []),
+        ("half-unit horizontal segment, left of a distant vertical edge", [((50, 10), (50.5, 10)), ((80, 0), (80, 20)), ((50.5, 10), (50.5, 60))], []),
+        ("zero-length segment (repeated route point), left of a distant vertical edge",
+         [((0, 0), (0, 40)), ((0, 40), (0, 40)), ((20, 0), (20, 80))], []),
+        ("two crossings on one horizontal line", [((0, 50), (100, 50)), ((30, 0), (30, 100)), ((70, 20), (70, 90))], [(30, 50), (70, 50)]),
+    ]
+    for name, pairs, want in scenes:
+        for adversarial in (False, True):
+            nodes, segs = [], []
+            cache = {}
+            for k, (p, q) in enumerate(pairs):
+                ends = []
+                for pt in (p, q):
+                    key = (F(pt[0]), F(pt[1]), k if p == q else None)       # a repeated route point is two distinct nodes at one place
+                    if p == q:
+                        nd = node(len(nodes), *pt)
+                        nodes.append(nd)
+                    else:
+                        nd = cache.get(key)
+                        if nd is None:
+                            nd = cache[key] = node(len(nodes), *pt)
+                            nodes.append(nd)
+                    ends.append(nd)
+                segs.append(seg(*ends))
+            created = []
+
+            def alloc(it_, recv, args):
+                o = default_obj(prog, "dialect::Node", {"_id": 1000 + len(created), "m_ID": 1000 + len(created), "m_cx": F(0), "m_cy": F(0)})
+                created.append(o)
+                return o
+            it = Interp(prog, Oracle([]), max_steps=3000000)
+            it.unstable_sort_reverses = adversarial
+            it.vhooks["dialect::Node::allocate"] = alloc
+            it.vhooks["dialect::Graph::getIEL"] = lambda it_, rc, a: F(80)
+            pl = default_obj(prog, "dialect::OrthoPlanariser", {"m_edgeSegments": Vec(list(segs), "dialect::EdgeSegment *"), "m_givenGraph": Obj("dialect::Graph", {})})
+            inst = name + (" [std::sort returning equivalent events in reverse order]" if adversarial else "")
+            r.count()
+            try:
+                out = it.call(fn, pl, None, None, arg_values=[])
+            except Unsupported as e:
+                raise AnalysisBroken("computeCrossings outside the interpreter subset (%s): %s" % (inst, e))
+            except AssertFail as e:
+                r.bad(inst, fn.where(), "assertion fails: %s" % e)
+                continue
+            got = sorted((F(x.f["m_cx"]), F(x.f["m_cy"])) for x in out.items)
+            bad = None
+            if got != sorted((F(a), F(b)) for a, b in want):
+                bad = "crossing nodes created at %s, the segments cross at %s" % ([(str(a), str(b)) for a, b in got], want)
+            for sg in pl.f["m_edgeSegments"].items:
+                o_, c_ = sg.f["openingNode"], sg.f["closingNode"]
+                var = "m_cx" if sg.f["orientation"] == 0 else "m_cy"
+                if bad is None and (F(o_.f[var]) != F(sg.f["lowerBound"]) or F(c_.f[var]) != F(sg.f["upperBound"]) or F(sg.f["lowerBound"]) > F(sg.f["upperBound"])):
+                    bad = "a segment's bounds [%s, %s] no longer match its end nodes (%s, %s)" % (sg.f["lowerBound"], sg.f["upperBound"], o_.f[var], c_.f[var])
+            (r.bad if bad else r.ok)(inst, fn.where(), bad or "%d crossing(s)" % len(got))
+
+
 def rule_route_clears(chk, prog):
     r = chk.rule("ROUTE-CLEARS-BENDS", "Graph::route discards the per-edge state of an earlier routing / planarisation before it routes again: every "
                  "path to RoutingAdapter::route passes Graph::clearAllRoutes, which calls Edge::clearRouteAndBends for every edge, which clears "
-                 "both the route and the bend nodes (planarise() reads the bend nodes of edges whose new route is straight)", floor=3)
+                 "both the route and the bend nodes (planarise() reads the bend nodes of edges whose new route is straight); Graph::buildUniqueBendPoints "
+                 "sets the bend nodes of EVERY edge, straight ones included (routes may also be replaced through Edge::setRoute)", floor=4)
     fn = prog.fn("dialect::Graph::route")
     g = CFG(fn)
     clr = [c for c in calls(fn) if c.get("cname") == "dialect::Graph::clearAllRoutes"]
@@ -406,6 +492,16 @@ def rule_route_clears(chk, prog):
     r.count()
     ok = bool(cs) and len(loops) == 1 and "m_edges" in norm(loops[0].get("range")) and CFG(fc).iteration_can_skip(loops[0], [cs[0]["id"]]) is None
     (r.ok if ok else r.bad)("Graph::clearAllRoutes", fc.where(), "" if ok else "not every edge of the graph has clearRouteAndBends() called")
+    fb = prog.fn("dialect::Graph::buildUniqueBendPoints")
+    sb = [c for c in calls(fb) if c.get("cname") == "dialect::Edge::setBendNodes"]
+    el = [n for n in fb.nodes() if n.get("k") in ("CXXForRangeStmt", "ForStmt") and "m_edges" in (norm(n.get("range")) if n.get("range") is not None else norm(n.get("init")) + norm(n.get("cond")))]
+    r.count()
+    if not sb or not el:
+        raise AnalysisBroken("buildUniqueBendPoints: loop over the edges / setBendNodes not found")
+    skip = CFG(fb).iteration_can_skip(el[0], [c["id"] for c in sb])
+    (r.ok if skip is None else r.bad)("Graph::buildUniqueBendPoints", fb.loc(el[0]), "" if skip is None else
+                                     "an edge can pass through buildUniqueBendPoints without its bend nodes being set (%s): an edge whose route has "
+                                     "become straight keeps the bend nodes of an earlier planarisation, which are not nodes of the new graph" % CFG(fb).describe(skip))
     fe = prog.fn("dialect::Edge::clearRouteAndBends")
     cleared = {norm(call_object(c)) for c in calls(fe) if str(c.get("cname", "")).endswith("::clear")}
     r.count()
@@ -413,13 +509,152 @@ def rule_route_clears(chk, prog):
                                                               "clears only %s" % sorted(cleared))
 
 
+def rule_planarise_coverage(chk, prog):
+    """Each stage of the planariser builds a NEW graph; what is not copied over is gone."""
+    r = chk.rule("PLANARISE-COVERAGE", "OrthoPlanariser::removeEdgeOverlaps / removeEdgeCrossings build a fresh graph each: every loop that carries "
+                 "nodes or edges over (ghosts of the given graph's nodes, the unique bend points, ghosts of the overlap-free graph's nodes, the "
+                 "crossing nodes; one edge per consecutive pair of every node group, one edge per edge segment) runs over the whole source "
+                 "collection and no iteration can end without Graph::addNode / addEdge -- nothing about a node (degree, kind) lets it be left "
+                 "behind, an isolated original node included", floor=6)
+    want = {"dialect::OrthoPlanariser::removeEdgeOverlaps": [("dialect::Graph::addNode", "m_givenGraph.*.getNodeLookup()"), ("dialect::Graph::addNode", "bps"),
+                                                            ("dialect::Graph::addEdge", "gp")],
+            "dialect::OrthoPlanariser::removeEdgeCrossings": [("dialect::Graph::addNode", "m_overlapFreeGraph.*.getNodeLookup()"),
+                                                             ("dialect::Graph::addNode", "crossingNodes"), ("dialect::Graph::addEdge", "m_edgeSegments")]}
+    for q, items in want.items():
+        fn = prog.fn(q)
+        g = CFG(fn)
+        adders = [c for c in calls(fn) if c.get("cname") in ("dialect::Graph::addNode", "dialect::Graph::addEdge")]
+        found = []
+        for c in adders:
+            loops = [a for a in fn.ancestors(c) if a.get("k") in ("CXXForRangeStmt", "ForStmt")]
+            r.count()
+            inst = "%s in %s (line %s)" % (c["cname"].split("::")[-1], q.split("::")[-1], fn.loc(c).rsplit(":", 1)[-1])
+            if not loops:
+                r.bad(inst, fn.loc(c), "not applied in a loop over a collection")
+                continue
+            bad = None
+            for lp in loops:                      # innermost first; every enclosing loop must reach the adder on every iteration too, unless it is
+                skip = g.iteration_can_skip(lp, [c["id"]])     # the counting loop `i + 1 < gp.size()` whose body is the adder
+                if skip is not None and lp is loops[0]:
+                    bad = "an iteration of the loop at line %s can end without %s (%s)" % (lp.get("l"), c["cname"].split("::")[-1], g.describe(skip))
+                    break
+            rng = norm(loops[0].get("range")) if loops[0].get("k") == "CXXForRangeStmt" else norm(loops[0].get("cond"))
+            found.append((c["cname"], rng))
+            (r.bad if bad else r.ok)(inst, fn.loc(c), bad or "over `%s`" % rng)
+        for cname, src_ in items:
+            r.count()
+            hit = [f for f in found if f[0] == cname and src_ in f[1]]
+            (r.ok if hit else r.bad)("%s: %s for all of %s" % (q.split("::")[-1], cname.split("::")[-1], src_), fn.where(), "" if hit else
+                                     "no loop over `%s` adds to the new graph any more (found: %s)" % (src_, found))
+
+
+def rule_sibling_trees(chk, prog):
+    """Tree::symmetricLayout: how the child trees of a node are put side by side."""
+    from fractions import Fraction
+    from ..microai.interp import Interp, Obj, Vec, MapVal, Box, Oracle, Unsupported, AssertFail, default_obj
+    from .c14 import _enum
+    r = chk.rule("SIBLING-TREES-APART", "the placement step of Tree::symmetricLayout (body of the loop over the child trees of one isomorphism class), "
+                 "interpreted as a fragment for sequences of already laid-out child trees with ASYMMETRIC per-rank bounds -- a central tree followed "
+                 "by trees on the positive and the negative side, and sides only -- for a vertical and a horizontal growth direction, tight and "
+                 "loose boundaries: after every step the rank intervals of the placed child trees are pairwise disjoint on every rank, and the "
+                 "parent's per-rank bounds and overall bounds enclose all of them (they are what the next tree, and the parent's own parent, is "
+                 "kept away from)", floor=8)
+    fn = prog.fn("dialect::Tree::symmetricLayout")
+    loops = [n for n in fn.nodes() if n.get("k") == "CXXForRangeStmt" and n.get("var", {}).get("name") == "t"]
+    if len(loops) != 1:
+        loops = [n for n in fn.nodes() if n.get("k") == "CXXForRangeStmt" and any(
+            x.get("k") == "DeclRefExpr" and x.get("ref") == "mustPlaceCentralTree" for x in walk(n.get("body") or {}))]
+        loops = loops[-1:] if loops else []
+    if len(loops) != 1:
+        raise AnalysisBroken("symmetricLayout: the loop over the child trees of a class was not found")
+    body = loops[0]["body"]
+    dids = {}
+    for d in fn.nodes():
+        if d.get("k") == "VarDecl" and d.get("name") in ("t", "mustPlaceCentralTree", "positiveNext", "baseTrans"):
+            dids[d["name"]] = d["did"]
+    for p_ in fn.params:
+        dids[p_["name"]] = p_["did"]
+    need = {"t", "mustPlaceCentralTree", "positiveNext", "baseTrans", "growthDir", "nodeSep"}
+    if not need <= set(dids):
+        raise AnalysisBroken("symmetricLayout: locals of the placement step not found (%s)" % sorted(need - set(dids)))
+    F = Fraction
+
+    def child(ranks, tight, gd):
+        return default_obj(prog, "dialect::Tree", {
+            "m_lb": min(F(a) for a, b in ranks), "m_ub": max(F(b) for a, b in ranks), "m_isSymmetric": False, "m_growthDir": gd,
+            "m_nodes": MapVal({}), "m_depth": len(ranks), "m_boundaryTight": tight,
+            "m_boundsByRank": Vec([Vec([F(a), F(b)], "double") for a, b in ranks], "std::vector<double>")})
+    A2 = [(-1, 1), (-1, 6)]                   # leans to the positive side
+    B2 = [(-1, 1), (-5, 1)]                   # leans to the negative side
+    A3 = [(-1, 1), (-2, 1), (-1, 7)]
+    seqs = [("central tree, then one tree on each side", True, [A2, B2, B2]),
+            ("central tree of depth 3, then a deeper and a shallower side tree", True, [A3, A3, B2]),
+            ("sides only (four trees)", False, [A2, A2, B2, B2]),
+            ("sides only, mixed depths", False, [A3, B2, A2, A3])]
+    for name, central, kids in seqs:
+        for gname in ("dialect::CardinalDir::SOUTH", "dialect::CardinalDir::EAST"):
+            for tight in (True, False):
+                gd = _enum(prog, gname)
+                depth = 1 + max(len(k) for k in kids)
+                parent = default_obj(prog, "dialect::Tree", {
+                    "m_lb": F(-1), "m_ub": F(1), "m_isSymmetric": False, "m_growthDir": gd, "m_nodes": MapVal({}), "m_depth": depth,
+                    "m_boundaryTight": tight,
+                    "m_boundsByRank": Vec([Vec([F(-1), F(1)], "double")] + [Vec([F(0), F(0)], "double") for _ in range(depth - 1)], "std::vector<double>")})
+                vertical = gname.endswith("SOUTH") or gname.endswith("NORTH")
+                base = default_obj(prog, "Avoid::Point", {"x": F(0) if vertical else F(10), "y": F(10) if vertical else F(0)})
+                must, posn = Box(central), Box(True)
+                placed = []
+                inst = "%s; growth %s; %s boundary" % (name, gname.split("::")[-1], "tight" if tight else "loose")
+                r.count()
+                bad = None
+                for k, ranks in enumerate(kids):
+                    t = child(ranks, tight, gd)
+                    env = {dids["t"]: Box(t), dids["mustPlaceCentralTree"]: must, dids["positiveNext"]: posn, dids["baseTrans"]: Box(base),
+                           dids["growthDir"]: Box(gd), dids["nodeSep"]: Box(F(1, 2)), "this": parent}
+                    it = Interp(prog, Oracle([]), max_steps=200000)
+                    try:
+                        it.ex(body, env)
+                    except Unsupported as e:
+                        raise AnalysisBroken("placement step of symmetricLayout outside the interpreter subset (%s): %s" % (inst, e))
+                    except AssertFail as e:
+                        bad = "assertion fails: %s" % e
+                        break
+                    placed.append(t)
+                    for rk in range(1, depth):
+                        ivs = []
+                        for j, c in enumerate(placed):
+                            if rk - 1 < c.f["m_depth"]:
+                                row = c.f["m_boundsByRank"].items[rk - 1].items
+                                ivs.append((F(row[0]), F(row[1]), j))
+                        for x in range(len(ivs)):
+                            for y in range(x):
+                                if min(ivs[x][1], ivs[y][1]) > max(ivs[x][0], ivs[y][0]):
+                                    bad = bad or ("after placing child %d: on rank %d child %d occupies [%s, %s] and child %d [%s, %s] -- they overlap" % (
+                                        k, rk, ivs[y][2], ivs[y][0], ivs[y][1], ivs[x][2], ivs[x][0], ivs[x][1]))
+                        prow = parent.f["m_boundsByRank"].items[rk].items
+                        if ivs and (F(prow[0]) > min(i_[0] for i_ in ivs) or F(prow[1]) < max(i_[1] for i_ in ivs)):
+                            bad = bad or ("after placing child %d: the parent records [%s, %s] for rank %d, but its child trees reach from %s to %s there" % (
+                                k, prow[0], prow[1], rk, min(i_[0] for i_ in ivs), max(i_[1] for i_ in ivs)))
+                    lo = min([F(-1)] + [F(c.f["m_lb"]) for c in placed])
+                    hi = max([F(1)] + [F(c.f["m_ub"]) for c in placed])
+                    if F(parent.f["m_lb"]) > lo or F(parent.f["m_ub"]) < hi:
+                        bad = bad or "after placing child %d: the parent's bounds [%s, %s] do not enclose its child trees [%s, %s]" % (
+                            k, parent.f["m_lb"], parent.f["m_ub"], lo, hi)
+                    if bad:
+                        break
+                (r.bad if bad else r.ok)(inst, fn.loc(loops[0]), bad or "%d child trees" % len(kids))
+
+
 def run(chk):
     prog = chk.load()
+    chk.guard(rule_planarise_coverage, chk, prog)
+    chk.guard(rule_sibling_trees, chk, prog)
     chk.guard(rule_peel, chk, prog)
     chk.guard(rule_stems, chk, prog)
     chk.guard(rule_buckets, chk, prog)
     chk.guard(rule_components, chk, prog)
     chk.guard(rule_node_groups, chk, prog)
+    chk.guard(rule_crossings, chk, prog)
     chk.guard(rule_route_clears, chk, prog)
     from ..rules import mirrors
     r_m = chk.rule("MIRROR", "the x / y accessors of the planarisation events stay mirror images (tables/mirrors.json)", floor=1)
